@@ -100,6 +100,7 @@ def mc_trees(ctx):
         # the code's per-function with flag violates WithCross; the rendered witnesses are pinned in known/C02.ndjson
         return vlib.tlc(ctx, 'JsRenamer', 'JsRenamer_withcross.cfg', workers=2, timeout=1200)
 
+    vlib._speccopy(ctx)      # the scratch copy of spec/ is made once, before the parallel TLC runs
     with ThreadPoolExecutor(max_workers=len(cfgs) + 1) as ex:
         fx = ex.submit(cross, None)
         results = list(ex.map(mc, cfgs))
@@ -153,11 +154,12 @@ def build_cases(ctx, trees):
         add(G.class_scopes(rnd), 'pressure/class')
         add(G.labels_like_generated(rnd), 'pressure/label')
         add(G.inner_uses_outer_and_global(rnd), 'pressure/innerglobal')
-        add(G.hoisting(rnd), 'pressure/hoist')
+        for _ in range(3):
+            add(G.hoisting(rnd), 'pressure/hoist')
         add(G.with_own(rnd), 'pressure/with')
         add(G.module_program(rnd), 'pressure/module')
     # (3) random nestings
-    for _ in range(450 if quick else 12000):
+    for _ in range(450 if quick else 16000):
         add(G.random_program(rnd, maxdepth=rnd.choice([2, 3, 4])), 'random')
     # (4) the repository's own inputs (code -> spec direction)
     try:
